@@ -3,7 +3,7 @@
    theories/Proofs/PathsProofs.v.  Paths are lists of '/'-separated parts (split_on/join_with of
    Impl/Partition.v); a file is what api.ParquetFile shows of it (single file or dataset, schema,
    row groups = rows, first-chunk path, data).                                                  *)
-From Coq Require Import NArith ZArith Bool Ascii String Arith List.
+From Coq Require Import NArith ZArith Bool Ascii String Arith List Permutation.
 From Pq Require Import Base.Bytes Impl.Partition Impl.Paths Dataset.Merge Proofs.PartitionStr Proofs.PartitionProofs Proofs.PartitionE2E Proofs.PathsProofs Proofs.MergePartition.
 Import ListNotations.
 
@@ -234,3 +234,31 @@ Theorem C14_rendering_is_not_equality_refuted :
   exists s1 s2, map render_name_type s1 = map render_name_type s2 /\ schema_eqb s1 s2 = false.
 Proof. exact rendering_is_not_equality. Qed.
 Print Assumptions C14_rendering_is_not_equality_refuted.
+
+(* ---------------------------------------------------------------------------------------------------------------
+   Row groups are matched to the columns of the output by NAME (path_in_schema), not by position (wave 4; Dataset/ChunkNames.v:
+   the loop of core.read_row_group_arrays).  C14_concat gives the merged row groups = the inputs' row groups in order; here: what is read
+   from them does not depend on how each file ordered its column chunks (another writer, a frame with permuted columns: the input class of
+   seeded changes C14-8 / C06-7), and every column of the merged dataset is the concatenation of that column of every row group.
+   Tie: stream B with one file written with its columns in another order (colperm), read through every via and compared cell by cell. *)
+From Pq Require Import Dataset.ChunkNames Proofs.ChunkNamesProofs.
+
+Theorem C14_concat_chunk_order : forall (V : Type) (cols : list cname) (rgs rgs' : list (rowgroup V)),
+  Forall2 (fun rg rg' => NoDup (map fst rg) /\ Permutation rg rg') rgs rgs' ->
+  read_table V cols rgs = read_table V cols rgs'.
+Proof. exact read_table_chunk_order. Qed.
+Print Assumptions C14_concat_chunk_order.
+
+Theorem C14_column_is_concatenation : forall (V : Type) (c : cname) (rgs : list (rowgroup V)) (datas : list (list V)),
+  Forall2 (fun rg d => NoDup (map fst rg) /\ In (c, d) rg) rgs datas ->
+  read_column V c rgs = Some (concat datas).
+Proof. exact read_column_concat. Qed.
+Print Assumptions C14_column_is_concatenation.
+
+(* matching the k-th chunk to the k-th column of a layout remembered from another row group is NOT that (computed witness) *)
+Theorem C14_chunks_by_position_refuted :
+  exists (layout : list cname) (c : cname) (rg rg' : rowgroup nat),
+    NoDup (map fst rg) /\ Permutation rg rg' /\
+    read_col_by_position nat layout c rg = read_col nat c rg /\ read_col_by_position nat layout c rg' <> read_col nat c rg'.
+Proof. exact by_position_refuted. Qed.
+Print Assumptions C14_chunks_by_position_refuted.
